@@ -7,6 +7,8 @@ is run through model/Lookup.v (cmd 1001: what every call returned, the final fra
 A history is a list of operations (JSON-able lists), total on every state so that any sub-list is a history:
   ["new"]                              CanMatrix()
   ["newdbc", [[id, ext, n]...], [e..]] canmatrix.formats.loads_flat(generated DBC text)  (reader: db.frames.append)
+  ["load", fmt, [[[id, ext, n]...]...]] canmatrix.formats.loads(dump({BusA: m1, BusB: m2, ..}, fmt), fmt): one matrix per bus for the
+                                       cluster formats arxml/kcd (equally named frames on several buses), one for dbc/dbf/sym/json
   ["add", m, id, ext, n]               db.add_frame(Frame(NAMES[n], ArbitrationId(id, ext), header_id=HDRS[n]))
   ["app", m, id, ext, n]               db.frames.append(Frame(...))           (what dbc.py does)
   ["rem", m, p] / ["delp", m, p]       db.remove_frame(db.frames[p]) / db.del_frame(db.frames[p]); p past the end: a foreign Frame
@@ -20,8 +22,9 @@ A history is a list of operations (JSON-able lists), total on every state so tha
   ["merge", d, s]                      mats[d].merge([mats[s]])
   ["lid", m, id, ext] ["lname", m, n] ["lpgn", m, p] ["lhdr", m, h]     the four lookups
   ["obs"]                              every lookup for every key of the universe on every matrix
-Operations naming a matrix that does not exist are skipped."""
+Names (n, a, b) are indices into NAMES or literal strings.  Operations naming a matrix that does not exist are skipped."""
 import glob
+import io
 import json
 import multiprocessing
 import os
@@ -48,6 +51,9 @@ UNIVERSES = {
                        (0x0CFEF133, True), (0x18EF1200, True), (0x18EF3400, True)],
                  names=[0, 1, 2], pgns=[0, 0xFEF1, 0xEF00, 0xEF12, 0x1234], hdrs=[0x51, 0x52, 0x53]),
 }
+# matrices delivered by the file readers: the ARXML reader prefixes frame names
+UNIVERSES["readers"] = dict(UNIVERSES["rand"], names=[0, 1, 2, "FRAME_FrA", "FRAME_FrB", "FRAME_FrC", "Ren1", "Ren2"], hdrs=[0x51])
+
 
 KEY_WHAT = {
     "lookup-returns-removed-frame": "a lookup returned a frame that is no longer in the matrix (stale memo after a removal)",
@@ -58,6 +64,8 @@ KEY_WHAT = {
     "lookup-raises": "a lookup raised",
     "operation-raises": "copy_frame/merge raised although the source holds the frame (its own lookups of one id disagreed)",
     "bystander-matrix-modified": "an operation changed the frame list of a matrix it was not addressed to",
+    "bystander-lookup-changed": "a lookup on a matrix answers differently than before although no operation was addressed to that matrix in between",
+    "frame-object-shared-between-matrices": "one Frame object sits in the frame lists of two matrices (an edit through one matrix changes the lookups of the other)",
 }
 
 
@@ -100,6 +108,10 @@ class Runner:
         self.C = cm.canmatrix
         self.copy_frame = canmatrix.copy.copy_frame
         self.loads_flat = canmatrix.formats.loads_flat
+        self.formats = canmatrix.formats
+        self.dump_cache = {}
+        self.load_failed = 0
+        self.memo_after_load = 0
         self.memo_attr = "_frames_dict_id_extend"
         self.class_containers = [v for v in vars(self.C.CanMatrix).values() if isinstance(v, (dict, list, set))]
 
@@ -110,10 +122,80 @@ class Runner:
         for v in self.class_containers:
             v.clear()
 
+    # ---- matrices that come out of a file reader ----
+    def file_bytes(self, fmt, buses):
+        """dump({bus: matrix}, fmt) of freshly built matrices; buses: [[[id, ext, n], ...], ...]"""
+        key = (fmt, json.dumps(buses))
+        data = self.dump_cache.get(key)
+        if data is None:
+            C = self.C
+            src = {}
+            for b, frames in enumerate(buses):
+                db = C.CanMatrix()
+                for i, e, n in frames:
+                    f = C.Frame(NAMES[n], arbitration_id=C.ArbitrationId(i, bool(e)), size=8)
+                    f.add_signal(C.Signal("s" + NAMES[n], start_bit=0, size=8))
+                    db.add_frame(f)
+                src["Bus" + "ABCD"[b]] = db
+            buf = io.BytesIO()
+            if fmt in ("arxml", "kcd"):
+                self.formats.dump(src, buf, fmt)
+            else:
+                self.formats.dump(src["BusA"], buf, fmt)
+            data = self.dump_cache[key] = buf.getvalue()
+        return data
+
+    def load(self, op, mats, mops, exp, register, uid_of, nidx, step):
+        """["load", fmt, buses]: every matrix the reader returns becomes a matrix of the world (cluster readers:
+        in the order of the bus names).  In the model each is NewMatrix + one FramesAppend per frame the reader
+        delivered, with the values it delivered: distinct objects, which is what independence presupposes."""
+        fmt, buses = op[1], op[2]
+        try:
+            loaded = self.formats.loads(self.file_bytes(fmt, buses), fmt)
+        except Exception:  # noqa  what the readers accept is the subject of C06/C15, not of this check
+            loaded = None
+        if not loaded:
+            self.load_failed += 1
+            return
+        for bus in sorted(loaded):
+            db = loaded[bus]
+            mats.append(db)
+            mi = len(mats) - 1
+            mops.append([1])
+            exp.append([0])
+            first = len(exp)
+            for f in db.frames:
+                mops.append([3, mi, f.arbitration_id.id, int(bool(f.arbitration_id.extended)), nidx(f.name),
+                             -1 if f.header_id is None else f.header_id, int(bool(f.is_j1939))])
+                exp.append(None)
+            register(mi, step, op)
+            for t, f in enumerate(db.frames):
+                exp[first + t] = [1, uid_of(f)]
+            memo = getattr(db, self.memo_attr, None)
+            if isinstance(memo, dict) and memo:
+                self.memo_after_load += 1      # a reader that leaves lookups memoised (the model starts empty):
+                self.opaque.add(id(db))        # the memo of this matrix is not compared
+
     # ---- one history ----
-    def run(self, ops, uni, stop_at_failure=True):
+    def run(self, ops, uni, stop_at_failure=True, extend=None):
+        """ops: the history.  extend: optional callable(mats) -> next operation or None; its operations are appended
+        to ops while the history runs (random generation that looks at the current state)."""
         C = self.C
         self.fresh_process_state()
+        self.opaque = set()
+        names = list(NAMES)   # interned names: model integer = index + 1
+
+        def nm(x):
+            return NAMES[x] if isinstance(x, int) else x
+
+        def nidx(x):
+            if isinstance(x, int):
+                return x + 1
+            if x not in names:
+                names.append(x)
+            return names.index(x) + 1
+        last_obs = {}         # matrix -> answers of the latest complete observation
+        touched = set()       # matrices an operation was addressed to since then
         mats = []
         uid = {}      # id(Frame) -> uid
         home = {}     # uid -> index of the matrix it was created in
@@ -124,16 +206,25 @@ class Runner:
         nlook = 0
         skipped = 0
 
-        def register(mi):
+        def register(mi, step=None, op=None):
+            """new objects of matrix mi get the next uids; an object that already sits in another matrix is a failure"""
             for f in mats[mi].frames:
-                if id(f) not in uid:
+                u = uid.get(id(f))
+                if u is None:
                     u = len(keep)
                     uid[id(f)] = u
                     home[u] = mi
                     keep.append(f)
+                elif home[u] != mi and any(f is g for g in mats[home[u]].frames):
+                    failures.append(("frame-object-shared-between-matrices", step, list(op) if op else None,
+                                     "every matrix owns its Frame objects",
+                                     "matrices %d and %d hold the same Frame object %r" % (home[u], mi, f.name)))
+                    if stop_at_failure:
+                        raise Failure()
 
         def mk_frame(i, e, n):
-            return C.Frame(NAMES[n], arbitration_id=C.ArbitrationId(i, e), size=8, header_id=HDRS[n], is_j1939=bool(e))
+            return C.Frame(nm(n), arbitration_id=C.ArbitrationId(i, e), size=8,
+                           header_id=HDRS[n] if isinstance(n, int) else None, is_j1939=bool(e))
 
         def uid_of(f):
             return -1 if f is None else uid.get(id(f), -2)
@@ -185,12 +276,12 @@ class Runner:
                     raised = type(ex).__name__
                 mops.append([12, mi, i, int(e)])
             elif kind == "lname":
-                carrying = [f for f in db.frames if f.name == NAMES[op[2]]]
+                carrying = [f for f in db.frames if f.name == nm(op[2])]
                 try:
-                    r = db.frame_by_name(NAMES[op[2]])
+                    r = db.frame_by_name(nm(op[2]))
                 except Exception as ex:  # noqa
                     raised = type(ex).__name__
-                mops.append([13, mi, op[2] + 1])
+                mops.append([13, mi, nidx(op[2])])
             elif kind == "lpgn":
                 g = spec_pgn(op[2] << 8)
                 carrying = [f for f in db.frames if f.arbitration_id.extended and spec_pgn(f.arbitration_id.id) == g]
@@ -208,6 +299,7 @@ class Runner:
                 mops.append([15, mi, op[2]])
             exp.append([3] if raised is not None else [1, uid_of(r)])
             check(step, op, mi, r, carrying, raised)
+            return r
 
         def raised_in_edit(step, op, ex):
             """copy_frame / merge are built on the lookups; they raise when two lookups of one id disagree"""
@@ -218,144 +310,171 @@ class Runner:
         def snapshot():
             return [[(id(f), f.arbitration_id.id, f.arbitration_id.extended, f.name, f.header_id) for f in d.frames] for d in mats]
 
-        try:
-            for step, op in enumerate(ops):
-                kind = op[0]
-                if kind == "new":
-                    mats.append(C.CanMatrix())
-                    mops.append([1])
+        def execute(step, op):
+            nonlocal skipped, nlook
+            kind = op[0]
+            if kind == "new":
+                mats.append(C.CanMatrix())
+                mops.append([1])
+                exp.append([0])
+                return
+            if kind == "newdbc":
+                db = self.loads_flat(dbc_text(op[1], op[2]), "dbc")
+                got = [(f.arbitration_id.id, bool(f.arbitration_id.extended), f.name) for f in db.frames]
+                want = [(i, bool(e), NAMES[n]) for i, e, n in op[1]]
+                assert got == want and [x.name for x in db.ecus] == [ECUS[e] for e in op[2]], (got, want)
+                mats.append(db)
+                mi = len(mats) - 1
+                mops.append([1])
+                exp.append([0])
+                for e in op[2]:
+                    mops.append([9, mi, e + 1])
                     exp.append([0])
-                    continue
-                if kind == "newdbc":
-                    db = self.loads_flat(dbc_text(op[1], op[2]), "dbc")
-                    got = [(f.arbitration_id.id, bool(f.arbitration_id.extended), f.name) for f in db.frames]
-                    want = [(i, bool(e), NAMES[n]) for i, e, n in op[1]]
-                    assert got == want and [x.name for x in db.ecus] == [ECUS[e] for e in op[2]], (got, want)
-                    mats.append(db)
-                    mi = len(mats) - 1
-                    mops.append([1])
-                    exp.append([0])
-                    for e in op[2]:
-                        mops.append([9, mi, e + 1])
-                        exp.append([0])
-                    register(mi)
-                    for (i, e, n), f in zip(op[1], db.frames):
-                        mops.append([3, mi, i, int(bool(e)), n + 1, -1, 0])
-                        exp.append([1, uid_of(f)])
-                    continue
-                if kind == "obs":
-                    for look in obs_lookups(len(mats), uni):
-                        lookup(step, look)
-                    continue
-                involved = [op[1], op[2]] if kind in ("copy", "merge") else [op[1]]
-                if any(m >= len(mats) for m in involved):
-                    skipped += 1
-                    continue
-                mi = op[1]
-                db = mats[mi]
-                before = snapshot() if len(mats) > 1 else None
-                target = mi
-                if kind in ("lid", "lname", "lpgn", "lhdr"):
-                    lookup(step, op)
-                    target = None      # a lookup must not change any frame list
-                elif kind in ("add", "app"):
-                    f = mk_frame(op[2], bool(op[3]), op[4])
-                    if kind == "add":
-                        db.add_frame(f)
-                    else:
-                        db.frames.append(f)
-                    register(mi)
-                    mops.append([2 if kind == "add" else 3, mi, op[2], int(bool(op[3])), op[4] + 1,
-                                 -1 if HDRS[op[4]] is None else HDRS[op[4]], int(bool(op[3]))])
+                register(mi)
+                for (i, e, n), f in zip(op[1], db.frames):
+                    mops.append([3, mi, i, int(bool(e)), n + 1, -1, 0])
                     exp.append([1, uid_of(f)])
-                elif kind in ("rem", "delp"):
-                    f = db.frames[op[2]] if op[2] < len(db.frames) else mk_frame(0x7FF, False, 0)
-                    try:
-                        if kind == "rem":
-                            db.remove_frame(f)
-                        else:
-                            db.del_frame(f)
-                        exp.append([0])
-                    except ValueError:
-                        exp.append([3])
-                    mops.append([4 if kind == "rem" else 5, mi, uid_of(f) if id(f) in uid else -1])
-                elif kind == "deln":
-                    db.del_frame(NAMES[op[2]])
-                    mops.append([6, mi, op[2] + 1])
-                    exp.append([0])
-                elif kind == "ren":
-                    db.rename_frame(NAMES[op[2]], NAMES[op[3]])
-                    mops.append([7, mi, op[2] + 1, op[3] + 1])
-                    exp.append([0])
-                elif kind == "setid":
-                    if op[2] >= len(db.frames):
-                        skipped += 1
-                        continue
-                    f = db.frames[op[2]]
-                    f.arbitration_id = C.ArbitrationId(op[3], bool(op[4]))
-                    mops.append([8, mi, uid_of(f), op[3], int(bool(op[4]))])
-                    exp.append([0])
-                elif kind == "inpl":
-                    if op[2] >= len(db.frames):
-                        skipped += 1
-                        continue
-                    f = db.frames[op[2]]
-                    f.arbitration_id.id = op[3]
-                    mops.append([16, mi, uid_of(f), op[3]])
-                    exp.append([0])
-                elif kind == "chg":
-                    i, e = op[2], bool(op[3])
-                    carrying = [f for f in db.frames if f.arbitration_id.id == i and f.arbitration_id.extended == e]
-                    nlook += 1
-                    f = db.frame_by_id(C.ArbitrationId(i, e))
-                    mops.append([17, mi, i, int(e), op[4]])
-                    exp.append([1, uid_of(f)])
-                    check(step, ["lid", mi, i, e], mi, f, carrying)
-                    if f is not None:
-                        f.arbitration_id.id = op[4]
-                        # the frame found may (wrongly) live elsewhere: then nothing may be said about `target`
-                        if not any(f is g for g in db.frames):
-                            before = None
-                elif kind == "ecu":
-                    db.add_ecu(C.Ecu(ECUS[op[2]]))
-                    mops.append([9, mi, op[2] + 1])
-                    exp.append([0])
-                elif kind == "copy":
-                    target = op[2]
-                    mops.append([10, op[1], op[2], op[3], int(bool(op[4]))])
-                    in_src = [f for f in mats[op[1]].frames
-                              if f.arbitration_id.id == op[3] and f.arbitration_id.extended == bool(op[4])]
-                    try:
-                        r = self.copy_frame(C.ArbitrationId(op[3], bool(op[4])), mats[op[1]], mats[op[2]])
-                        exp.append([2, int(bool(r))])
-                    except AttributeError as ex:
-                        # "Copying Frame " + None.name: expected exactly when the source has no such frame
-                        exp.append([3])
-                        if in_src:
-                            raised_in_edit(step, op, ex)
-                    except Exception as ex:  # noqa
-                        exp.append([3])
-                        raised_in_edit(step, op, ex)
-                    register(op[2])
-                elif kind == "merge":
-                    target = op[1]
-                    mops.append([11, op[1], op[2]])
-                    try:
-                        mats[op[1]].merge([mats[op[2]]])
-                        exp.append([0])
-                    except Exception as ex:  # noqa
-                        exp.append([3])
-                        raised_in_edit(step, op, ex)
-                    register(op[1])
-                else:
-                    raise ValueError("unknown operation %r" % (op,))
-                if before is not None:
-                    after = snapshot()
-                    for j in range(len(before)):
-                        if j != target and before[j] != after[j]:
-                            failures.append(("bystander-matrix-modified", step, list(op), before[j], after[j]))
+                return
+            if kind == "obs":
+                seq = obs_lookups(len(mats), uni)
+                per = len(seq) // len(mats) if mats else 0
+                for mi in range(len(mats)):
+                    now = []
+                    prev = last_obs.get(mi) if mi not in touched else None
+                    for t, look in enumerate(seq[mi * per:(mi + 1) * per]):
+                        r = lookup(step, look)
+                        now.append(r)
+                        if prev is not None and prev[t] is not r:
+                            failures.append(("bystander-lookup-changed", step, list(look), describe(prev[t]), describe(r)))
                             if stop_at_failure:
                                 raise Failure()
+                    last_obs[mi] = now
+                touched.clear()
+                return
+            if kind == "load":
+                self.load(op, mats, mops, exp, register, uid_of, nidx, step)
+                return
+            involved = [op[1], op[2]] if kind in ("copy", "merge") else [op[1]]
+            if any(m >= len(mats) for m in involved):
+                skipped += 1
+                return
+            mi = op[1]
+            db = mats[mi]
+            before = snapshot() if len(mats) > 1 else None
+            target = mi
+            if kind not in ("lid", "lname", "lpgn", "lhdr"):
+                touched.add(op[2] if kind == "copy" else mi)
+            if kind in ("lid", "lname", "lpgn", "lhdr"):
+                lookup(step, op)
+                target = None      # a lookup must not change any frame list
+            elif kind in ("add", "app"):
+                f = mk_frame(op[2], bool(op[3]), op[4])
+                if kind == "add":
+                    db.add_frame(f)
+                else:
+                    db.frames.append(f)
+                register(mi, step, op)
+                mops.append([2 if kind == "add" else 3, mi, op[2], int(bool(op[3])), nidx(op[4]),
+                             -1 if f.header_id is None else f.header_id, int(bool(op[3]))])
+                exp.append([1, uid_of(f)])
+            elif kind in ("rem", "delp"):
+                f = db.frames[op[2]] if op[2] < len(db.frames) else mk_frame(0x7FF, False, 0)
+                try:
+                    if kind == "rem":
+                        db.remove_frame(f)
+                    else:
+                        db.del_frame(f)
+                    exp.append([0])
+                except ValueError:
+                    exp.append([3])
+                mops.append([4 if kind == "rem" else 5, mi, uid_of(f) if id(f) in uid else -1])
+            elif kind == "deln":
+                db.del_frame(nm(op[2]))
+                mops.append([6, mi, nidx(op[2])])
+                exp.append([0])
+            elif kind == "ren":
+                db.rename_frame(nm(op[2]), nm(op[3]))
+                mops.append([7, mi, nidx(op[2]), nidx(op[3])])
+                exp.append([0])
+            elif kind == "setid":
+                if op[2] >= len(db.frames):
+                    skipped += 1
+                    return
+                f = db.frames[op[2]]
+                f.arbitration_id = C.ArbitrationId(op[3], bool(op[4]))
+                mops.append([8, mi, uid_of(f), op[3], int(bool(op[4]))])
+                exp.append([0])
+            elif kind == "inpl":
+                if op[2] >= len(db.frames):
+                    skipped += 1
+                    return
+                f = db.frames[op[2]]
+                f.arbitration_id.id = op[3]
+                mops.append([16, mi, uid_of(f), op[3]])
+                exp.append([0])
+            elif kind == "chg":
+                i, e = op[2], bool(op[3])
+                carrying = [f for f in db.frames if f.arbitration_id.id == i and f.arbitration_id.extended == e]
+                nlook += 1
+                f = db.frame_by_id(C.ArbitrationId(i, e))
+                mops.append([17, mi, i, int(e), op[4]])
+                exp.append([1, uid_of(f)])
+                check(step, ["lid", mi, i, e], mi, f, carrying)
+                if f is not None:
+                    f.arbitration_id.id = op[4]
+                    # the frame found may (wrongly) live elsewhere: then nothing may be said about `target`
+                    if not any(f is g for g in db.frames):
+                        before = None
+            elif kind == "ecu":
+                db.add_ecu(C.Ecu(ECUS[op[2]]))
+                mops.append([9, mi, op[2] + 1])
+                exp.append([0])
+            elif kind == "copy":
+                target = op[2]
+                mops.append([10, op[1], op[2], op[3], int(bool(op[4]))])
+                in_src = [f for f in mats[op[1]].frames
+                          if f.arbitration_id.id == op[3] and f.arbitration_id.extended == bool(op[4])]
+                try:
+                    r = self.copy_frame(C.ArbitrationId(op[3], bool(op[4])), mats[op[1]], mats[op[2]])
+                    exp.append([2, int(bool(r))])
+                except AttributeError as ex:
+                    # "Copying Frame " + None.name: expected exactly when the source has no such frame
+                    exp.append([3])
+                    if in_src:
+                        raised_in_edit(step, op, ex)
+                except Exception as ex:  # noqa
+                    exp.append([3])
+                    raised_in_edit(step, op, ex)
+                register(op[2], step, op)
+            elif kind == "merge":
+                target = op[1]
+                mops.append([11, op[1], op[2]])
+                try:
+                    mats[op[1]].merge([mats[op[2]]])
+                    exp.append([0])
+                except Exception as ex:  # noqa
+                    exp.append([3])
+                    raised_in_edit(step, op, ex)
+                register(op[1], step, op)
+            else:
+                raise ValueError("unknown operation %r" % (op,))
+            if before is not None:
+                after = snapshot()
+                for j in range(len(before)):
+                    if j != target and before[j] != after[j]:
+                        failures.append(("bystander-matrix-modified", step, list(op), before[j], after[j]))
+                        if stop_at_failure:
+                            raise Failure()
+
+        try:
+            for step, op in enumerate(ops):
+                execute(step, op)
+            while extend is not None:
+                op = extend(mats)
+                if op is None:
+                    break
+                ops.append(op)
+                execute(len(ops) - 1, op)
         except Failure:
             pass
         # final state in the model's encoding
@@ -365,11 +484,11 @@ class Runner:
             fl = []
             for f in d.frames:
                 fl += [uid_of(f), f.arbitration_id.id, int(bool(f.arbitration_id.extended)),
-                       NAMES.index(f.name) + 1 if f.name in NAMES else -5,
+                       nidx(f.name),
                        -1 if f.header_id is None else f.header_id, int(bool(f.is_j1939))]
             state.append(fl)
             memo = getattr(d, self.memo_attr, None)
-            if isinstance(memo, dict):
+            if isinstance(memo, dict) and id(d) not in self.opaque:
                 try:
                     memos.append(sorted((int(k.rsplit("_", 1)[0]), int(k.rsplit("_", 1)[1] == "True"), uid_of(v))
                                         for k, v in memo.items()))
@@ -562,39 +681,69 @@ def worker_explore(args):
 
 
 # ---- random histories ----
-def random_history(runner, rng, every_step):
-    """generated while executing (so that positions and names mostly hit); returns the op list"""
-    U = UNIVERSES["rand"]
+def random_history(runner, rng, every_step, readers=False):
+    """generated while it executes (positions and names mostly hit).  readers=False: 1..3 matrices made by CanMatrix()
+    or loads_flat(DBC text), every operation.  readers=True: the matrices come out of the file readers (2..4 buses of
+    one ARXML/KCD file carrying equally named frames, or one DBC/DBF/SYM/JSON file); the operations edit ONE matrix
+    at a time (rename, identifier changes, delete, add, append); copy/merge/add_ecu stay out because these frames have
+    signals, transmitters and attribute definitions, whose copying is C12's subject.  Returns (ops, result)."""
+    uni = "readers" if readers else "rand"
+    U = UNIVERSES[uni]
     keys = U["keys"]
-    nm = rng.choice([1, 2, 2, 3])
     ops = []
-    for _ in range(nm):
-        kind = rng.random()
-        if kind < 0.45:
+    if readers:
+        fmt = rng.choice(["arxml", "arxml", "arxml", "kcd", "kcd", "dbc", "dbf", "sym", "json"])
+        key_of = rng.sample(keys, 3)                      # one identifier per frame name in this file
+        nb = rng.choice([2, 3, 3, 4]) if fmt in ("arxml", "kcd") else 1
+        buses = []
+        for b in range(nb):
+            ns = [0] + rng.sample([1, 2], rng.randrange(0, 3)) if nb > 1 and rng.random() < 0.8 else \
+                rng.sample([0, 1, 2], rng.randrange(1, 4))
+            buses.append([[key_of[n][0], key_of[n][1], n] for n in sorted(ns)])
+        ops.append(["load", fmt, buses])
+        if rng.random() < 0.3:
             ops.append(["new"])
-        else:
-            fr = []
-            for _ in range(rng.randrange(0, 4)):
-                i, e = rng.choice(keys)
-                fr.append([i, e, rng.randrange(3)])
-            ops.append(["newdbc", fr, sorted(rng.sample([0, 1], rng.randrange(0, 3)))])
+    else:
+        for _ in range(rng.choice([1, 2, 2, 3])):
+            if rng.random() < 0.45:
+                ops.append(["new"])
+            else:
+                fr = []
+                for _ in range(rng.randrange(0, 4)):
+                    i, e = rng.choice(keys)
+                    fr.append([i, e, rng.randrange(3)])
+                ops.append(["newdbc", fr, sorted(rng.sample([0, 1], rng.randrange(0, 3)))])
     if every_step:
         ops.append(["obs"])
-    for _ in range(30):
-        res = runner.run(ops, "rand")
-        if res["failures"]:
-            return ops
-        nfs = res["nframes"]
+    std_ids = [k[0] for k in keys if not k[1]]
+    pool = [k for k in keys if k[0] in (0x100, 0x200, 0x18FEF100, 0x0CFEF133)]
+    state = dict(left=30, pending=[])
+
+    def pick_name(db, present):
+        have = [f.name for f in db.frames]
+        if have and rng.random() < present:
+            return rng.choice(have)
+        return rng.choice(U["names"])
+
+    def extend(mats):
+        if state["pending"]:
+            return state["pending"].pop(0)
+        if state["left"] <= 0 or not mats:
+            if state["left"] != -1:
+                state["left"] = -1
+                return ["obs"]
+            return None
+        state["left"] -= 1
+        nm = len(mats)
         m = rng.randrange(nm)
-        nf = nfs[m]
+        db = mats[m]
+        nf = len(db.frames)
         pos = rng.randrange(nf) if nf and rng.random() < 0.95 else nf + rng.randrange(2)
-        i, e = rng.choice(keys)
-        if rng.random() < 0.6:
-            # prefer identifiers that are around
-            pool = [k for k in keys if k[0] in (0x100, 0x200, 0x18FEF100, 0x0CFEF133)]
-            i, e = rng.choice(pool)
-        std_ids = [k[0] for k in keys if not k[1]]
+        i, e = rng.choice(pool) if rng.random() < 0.6 else rng.choice(keys)
         x = rng.random()
+        if readers:
+            # stretch the part of the scale that holds the operations used here
+            x = x * 0.69 if x < 0.9 else 0.87 + (x - 0.9)
         if x < 0.14:
             op = ["add", m, i, e, rng.randrange(3)]
         elif x < 0.24:
@@ -604,10 +753,14 @@ def random_history(runner, rng, every_step):
         elif x < 0.36:
             op = ["delp", m, pos]
         elif x < 0.41:
-            op = ["deln", m, rng.randrange(3)]
+            op = ["deln", m, pick_name(db, 0.8) if readers else rng.randrange(3)]
         elif x < 0.46:
-            a = rng.randrange(3)
-            op = ["ren", m, a, rng.choice([b for b in range(3) if b != a])]
+            if readers:
+                a = pick_name(db, 0.9)
+                op = ["ren", m, a, rng.choice([b for b in U["names"] if b != a and (not isinstance(a, int) or NAMES[a] != b)])]
+            else:
+                a = rng.randrange(3)
+                op = ["ren", m, a, rng.choice([b for b in range(3) if b != a])]
         elif x < 0.55:
             op = ["setid", m, pos, i, e]
         elif x < 0.62:
@@ -618,37 +771,32 @@ def random_history(runner, rng, every_step):
         elif x < 0.73:
             op = ["ecu", m, rng.randrange(2)]
         elif x < 0.82 and nm > 1:
-            s = rng.randrange(nm)
-            op = ["copy", s, m, i, e]
+            op = ["copy", rng.randrange(nm), m, i, e]
         elif x < 0.87 and nm > 1:
-            s = rng.choice([j for j in range(nm) if j != m] if rng.random() < 0.9 else list(range(nm)))
-            op = ["merge", m, s]
+            op = ["merge", m, rng.choice([j for j in range(nm) if j != m] if rng.random() < 0.9 else list(range(nm)))]
         elif x < 0.93:
             op = ["lid", m, i, e]
         elif x < 0.95:
-            op = ["lname", m, rng.randrange(3)]
+            op = ["lname", m, rng.choice(U["names"])]
         elif x < 0.97:
             op = ["lpgn", m, rng.choice(U["pgns"])]
         else:
             op = ["lhdr", m, rng.choice(U["hdrs"])]
-        ops.append(op)
         if every_step or rng.random() < 0.2:
-            ops.append(["obs"])
-    if ops[-1] != ["obs"]:
-        ops.append(["obs"])
-    return ops
+            state["pending"].append(["obs"])
+        return op
+
+    res = runner.run(ops, uni, extend=extend)
+    return ops, res
 
 
 def worker_random(args):
-    seeds, every_step, tie = args
+    seeds, every_step, tie, readers = args
     import random
     runner = Runner()
     out = []
     for s in seeds:
-        rng = random.Random(s)
-        ops = random_history(runner, rng, every_step)
-        res = runner.run(ops, "rand")
-        out.append((ops, res))
+        out.append(random_history(runner, random.Random(s), every_step, readers))
     lines = [model_line(r) for _, r in out if not r["failures"]]
     outs = core.run_model(lines) if lines and tie else []
     ties = []
@@ -664,15 +812,18 @@ def worker_random(args):
             ties.append((ops, d))
     slim = [(ops, dict(failures=r["failures"], nlook=r["nlook"], mops=r["mops"] if i < 3 else None, exp=r["exp"] if i < 3 else None,
                        nm=r["state"][0][1], nobj=r["state"][0][2])) for i, (ops, r) in enumerate(out)]
-    return slim, ties, len(outs)
+    return slim, ties, len(outs), dict(load_failed=runner.load_failed, memo_after_load=runner.memo_after_load)
 
 
 # ---- shrinking ----
 def shrink(runner, ops, uni, cls):
     """delete operations (and whole matrices, and frames of generated DBC files) while a failure of class cls persists;
     the result ends with the single failing lookup"""
+    nmat_of = {}
+
     def fails(h):
-        r = runner.run(h, uni)
+        r = runner.run([list(o) for o in h], uni)
+        nmat_of["n"] = r["state"][0][1]
         return r["failures"][0] if r["failures"] and r["failures"][0][0] == cls else None
 
     def cut(h):
@@ -688,8 +839,7 @@ def shrink(runner, ops, uni, cls):
             if f3 and f3[1] == len(h3) - 1:
                 return h3
             # the observation's earlier lookups matter: spell them out (the deletions below thin them)
-            nmat = sum(1 for o in h2 if o[0] in ("new", "newdbc"))
-            seq = obs_lookups(nmat, uni)
+            seq = obs_lookups(nmat_of["n"], uni)
             if look in seq:
                 h4 = h2[:-1] + seq[:seq.index(look) + 1]
                 f4 = fails(h4)
@@ -704,15 +854,21 @@ def shrink(runner, ops, uni, cls):
     while changed:
         changed = False
         i = 0
-        while i < len(cur) - 1:
+        while i < len(cur):
             cand = None
-            if cur[i][0] in ("new", "newdbc"):
+            last = i == len(cur) - 1       # the failing operation: it can only be thinned (a file), never dropped
+            has_load = any(o[0] == "load" for o in cur)
+            if cur[i][0] == "load" or last:
+                pass        # a file is thinned below
+            elif cur[i][0] in ("new", "newdbc") and has_load:
+                pass        # matrix numbers are not shifted when a reader delivers several matrices
+            elif cur[i][0] in ("new", "newdbc"):
                 mi = sum(1 for o in cur[:i] if o[0] in ("new", "newdbc"))
                 rest = []
                 ok = True
                 for pos in range(i + 1, len(cur)):
                     o = list(cur[pos])
-                    if o[0] in ("new", "newdbc", "obs"):
+                    if o[0] in ("new", "newdbc", "obs", "load"):
                         rest.append(o)
                         continue
                     refs = [1, 2] if o[0] in ("copy", "merge") else [1]
@@ -734,8 +890,9 @@ def shrink(runner, ops, uni, cls):
                 changed = True
                 continue
             # an observation in the middle: one of its lookups may do
-            if cur[i][0] == "obs":
-                nmat = sum(1 for o in cur[:i] if o[0] in ("new", "newdbc"))
+            if cur[i][0] == "obs" and not last:
+                fails(cur[:i])
+                nmat = nmat_of["n"]
                 U = UNIVERSES[uni]
                 singles = [["lid", m, k[0], k[1]] for m in range(nmat) for k in U["keys"]]
                 hit = False
@@ -748,8 +905,26 @@ def shrink(runner, ops, uni, cls):
                 if hit:
                     i += 1
                     continue
+            # a file: drop the last bus, then frames, one at a time
+            if cur[i][0] == "load":
+                done = False
+                buses = cur[i][2]
+                cands = []
+                if len(buses) > 1:
+                    cands.append(buses[:-1])
+                for b in range(len(buses)):
+                    for j in range(len(buses[b])):
+                        cands.append([list(x) if k != b else x[:j] + x[j + 1:] for k, x in enumerate(buses)])
+                for nb in cands:
+                    c2 = cut(cur[:i] + [["load", cur[i][1], nb]] + cur[i + 1:])
+                    if c2 is not None:
+                        cur = c2
+                        changed = done = True
+                        break
+                if done:
+                    continue
             # a generated DBC file: drop frames / ECUs one at a time
-            if cur[i][0] == "newdbc":
+            if cur[i][0] == "newdbc" and not last:
                 done = False
                 for part in (1, 2):
                     for j in range(len(cur[i][part])):
@@ -792,13 +967,39 @@ REGRESSIONS = [
 ]
 
 
+def reader_worlds():
+    """fixed worlds out of every reader: the same frame on 2, 3 and 4 buses of one ARXML / KCD file, one matrix edited
+    (rename, new identifier, identifier changed in place, delete, add), everything looked up everywhere after each step"""
+    out = []
+    A, B, C3 = [0x100, False, 0], [0x18FEF100, True, 1], [0x200, False, 2]
+    for fmt in ("arxml", "kcd"):
+        pre = "FRAME_" if fmt == "arxml" else ""
+        for nb in (2, 3, 4):
+            buses = [[A, B] if b % 2 == 0 else [A, C3] for b in range(nb)]
+            for edited in range(nb):
+                out.append(("%s, %d buses, bus %d edited" % (fmt, nb, edited),
+                            [["load", fmt, buses], ["obs"],
+                             ["ren", edited, pre + "FrA", "Ren1"], ["obs"],
+                             ["setid", edited, 0, 0x300, False], ["obs"],
+                             ["inpl", edited, 0, 0x200], ["obs"],
+                             ["deln", edited, "Ren1"], ["obs"],
+                             ["add", edited, 0x100, False, 0], ["obs"]]))
+    for fmt in ("dbc", "dbf", "sym", "json"):
+        out.append(("%s file and a fresh matrix" % fmt,
+                    [["load", fmt, [[A, B, C3]]], ["new"], ["obs"], ["ren", 0, 0, 1], ["setid", 0, 1, 0x300, True], ["obs"],
+                     ["add", 1, 0x100, False, 0], ["obs"], ["delp", 0, 0], ["obs"]]))
+    return out
+
+
 def run(chk):
     thorough = chk.tier == "thorough"
     chk.rule = ("EXHAUSTIVE (canonical under renaming of ids/names/ECUs and, until first use, of matrices; every history executed from "
                 "scratch and completed by all lookups for all keys): see coverage.sweeps for op sets, universes and lengths. RANDOM: 30 "
                 "operations on 1..3 matrices (CanMatrix() or loads_flat of generated DBC text, 9 keys with equal and different PGNs), "
-                "all lookups after every step in half of them, after 20% of the steps in the others. non-trivial = at least one edit "
-                "before a lookup; distinct by operation list")
+                "all lookups after every step in half of them, after 20% of the steps in the others. READERS: the same on worlds whose "
+                "matrices are what canmatrix.formats.loads returns for an ARXML/KCD file written from 2..4 buses carrying equally named frames, "
+                "or for a DBC/DBF/SYM/JSON file; one matrix is edited at a time, no Frame object may sit in two matrices, bystanders keep "
+                "their frame lists and their lookup answers. non-trivial = at least one edit before a lookup; distinct by operation list")
     ok = chk.build_and_audit()
     runner = Runner()
     nproc = max(1, min(core.NPROC, int(os.environ.get("VERIF_C10_PROCS", "12"))))
@@ -812,7 +1013,7 @@ def run(chk):
             failing.append((uni, h))
 
     # ---- corpus / regressions ----
-    corpus = list(REGRESSIONS)
+    corpus = list(REGRESSIONS) + reader_worlds()
     for p in sorted(glob.glob(os.path.join(core.VERIF, "corpus", "C10", "*.json"))):
         try:
             corpus.append((os.path.basename(p), json.load(open(p))["ops"]))
@@ -820,10 +1021,11 @@ def run(chk):
             chk.notes.append("corpus file %s unreadable: %s" % (p, ex))
     reg_results = []
     for name, ops in corpus:
-        res = runner.run(ops, "rand")
+        uni = "readers" if any(o[0] == "load" for o in ops) else "rand"
+        res = runner.run(ops, uni)
         chk.case(("reg", json.dumps(ops)), True)
         chk.count("regression")
-        note(res, ops, "rand")
+        note(res, ops, uni)
         if not res["failures"]:
             reg_results.append((ops, res))
     chk.sample(dict(history=dict(REGRESSIONS)["memoised frame shadowed by an earlier one"],
@@ -901,24 +1103,33 @@ def run(chk):
                                      lookups_checked=agg["nlook"], failing=len(agg["fails"]), skipped_ops=agg["skipped"]))
         # ---- random histories ----
         nrand = 1600 if not thorough else 24000
-        seeds = [chk.rng.randrange(1 << 60) for _ in range(nrand)]
-        chunks = [(seeds[i:i + 50], (i // 50) % 2 == 0, ok) for i in range(0, nrand, 50)]
+        nread = 500 if not thorough else 6000
+        seeds = [chk.rng.randrange(1 << 60) for _ in range(nrand + nread)]
+        chunks = [(seeds[i:i + 50], (i // 50) % 2 == 0, ok, False) for i in range(0, nrand, 50)]
+        chunks += [(seeds[i:i + 25], (i // 25) % 2 == 0, ok, True) for i in range(nrand, nrand + nread, 25)]
         results = pool.imap(worker_random, chunks, chunksize=1) if pool else map(worker_random, chunks)
-        for slim, ties, ntie in results:
+        reader_stats = dict(load_failed=0, memo_after_load=0)
+        for (_, _, _, readers), (slim, ties, ntie, rstat) in zip(chunks, results):
             tie_n += ntie
+            uni = "readers" if readers else "rand"
+            tag = "readers" if readers else "rand"
+            for k in reader_stats:
+                reader_stats[k] += rstat[k]
             for ops, r in slim:
-                edits = sum(1 for o in ops if o[0] not in ("new", "newdbc", "obs", "lid", "lname", "lpgn", "lhdr"))
-                chk.case(("rnd", json.dumps(ops)), edits > 0)
-                chk.count("random-%d-matrices" % r["nm"])
+                edits = sum(1 for o in ops if o[0] not in ("new", "newdbc", "load", "obs", "lid", "lname", "lpgn", "lhdr"))
+                chk.case((tag, json.dumps(ops)), edits > 0)
+                chk.count("%s-%d-matrices" % (tag, r["nm"]))
                 chk.count("lookups-checked", r["nlook"])
                 for o in ops:
-                    chk.count("rand-" + o[0])
+                    chk.count("%s-%s" % (tag, o[0] + ("-" + o[1] if o[0] == "load" else "")))
                 if r["failures"]:
-                    failing.append(("rand", ops))
+                    failing.append((uni, ops))
                 elif r["mops"] is not None and len(r["mops"]) < 400:
                     shard_pool.append((r["mops"], r["exp"]))
             for ops, d in ties:
-                chk.tie_break("history (cmd 1001)", dict(ops=ops, universe="rand"), d.get("model"), d)
+                chk.tie_break("history (cmd 1001)", dict(ops=ops, universe=uni), d.get("model"), d)
+        chk.extra["reader_worlds"] = dict(histories=nread, loads_that_failed=reader_stats["load_failed"] + runner.load_failed,
+                                          matrices_with_a_memo_after_load=reader_stats["memo_after_load"] + runner.memo_after_load)
     finally:
         if pool:
             pool.close()
@@ -979,4 +1190,7 @@ def run(chk):
     else:
         for i in mm:
             chk.tie_break("history-shard (cmd 1002)", shard[i][1], "vm_compute differs", shard[i][2])
+    chk.notes.append("reader worlds: in the model a matrix delivered by a reader is NewMatrix followed by one FramesAppend per delivered frame "
+                     "(fresh uid each): distinct objects per matrix is what C10_matrices_independent presupposes, so the model needed no "
+                     "change; the harness checks that presupposition on the implementation (frame-object-shared-between-matrices)")
     chk.notes.append("wall time of the search %.1fs on %d processes" % (time.time() - t0, nproc))
